@@ -279,6 +279,10 @@ def _(p):
         if mode == "raise" and not inside:
             return f"no-raise-outside-bounds: bs(extrapolation='raise') returned a value for x={xv} outside [{lo},{hi}]"
         knots, degree = st["knots"], cfg["degree"]
+        if cfg.get("state") is None and cfg.get("knots") is not None:
+            denoted = [float(cfg["lower_bound"])] * (degree + 1) + sorted(float(k) for k in cfg["knots"]) + [float(cfg["upper_bound"])] * (degree + 1)
+            if [float(k) for k in knots] != denoted:
+                return f"wrong-knot-vector: bs(knots={cfg['knots']}, degree={degree}, bounds [{cfg['lower_bound']},{cfg['upper_bound']}]) recorded the knot vector {[float(k) for k in knots]}, the arguments denote {denoted}"
         nb = len(knots) - degree - 1
         keys = [i for i in range(nb) if i > 0 or cfg["include_intercept"]]
         if list(out.keys()) != keys:
